@@ -64,7 +64,7 @@ Jobs ==
     [] Family = "binctx" ->      \* BINCLUDE in a context, followed by byte / word / long data / an instruction, on every class of target
          LET Ts == IF Q THEN TargetsQuick ELSE TargetsAll
              Wins == IF Q THEN {<<6, -1, -1>>, <<6, 1, 3>>, <<6, 0, 0>>, <<600, 1, 300>>}
-                     ELSE {<<6, -1, -1>>, <<6, 0, 2>>, <<6, 1, 3>>, <<6, 2, -1>>, <<6, 0, 0>>, <<6, 4, 1>>, <<600, 1, 300>>, <<600, 255, 257>>}
+                     ELSE {<<6, -1, -1>>, <<6, 0, 2>>, <<6, 1, 3>>, <<6, 2, -1>>, <<6, 0, 0>>, <<600, 1, 300>>, <<600, 255, 257>>}
              Combos == IF Q THEN {<<"N", "W">>, <<"B", "L">>, <<"W", "I">>, <<"L", "W">>, <<"I", "B">>}
                        ELSE {"N", "B", "W", "L", "I"} \X {"B", "W", "L", "I"}
              For(c) == {t.name : t \in {u \in Ts : BinCtxSizes(c[1], c[2]) \subseteq u.sizes}}
